@@ -32,6 +32,9 @@ class _Env:
     defined = None       # list of definedness conditions (divisor != 0, radicand >= 0)
     fresh_counter = 0
     serial = 0           # unique number of the current path context (memo keys; id() of a dead list may be reused)
+    inv_mode = False     # when set, a/b with a symbolic divisor is a * inv(b) with one reciprocal variable per divisor (up to scale)
+    tainted = False      # set when a symbolic real was boxed into a Python float on the current path (see nanbox)
+    kink_margin = 0      # when > 0, definedness conditions are recorded with this margin (radicand >= margin, |divisor| >= margin)
     tiefree = False      # when set, sign(x) of a symbolic real assumes x != 0 (recorded as a path assumption)
     tie_assumptions = 0
 
@@ -119,8 +122,38 @@ def is_conc(x):
     return isinstance(x, (bool, int, float))
 
 
+# ---- NaN boxes: float(x) of a symbolic real must be an exact Python float; it is a quiet NaN whose payload indexes the
+# symbolic value.  Re-entering symbolic arithmetic (or torch.tensor) unboxes it.  Python-level float arithmetic on the
+# box in between is invisible, so a path that ever boxed a value is *tainted*: its obligations can be violated
+# (replay-confirmed) but never 'holds'.
+_NANBOX = {}
+_NANBOX_NEXT = [1]
+
+
+def nanbox(v):
+    import struct
+    k = _NANBOX_NEXT[0]
+    _NANBOX_NEXT[0] = k + 1 if k < (1 << 21) - 1 else 1
+    _NANBOX[k] = v
+    ENV.tainted = True
+    return struct.unpack("<d", struct.pack("<Q", 0x7ff8000000000000 | (k << 29)))[0]
+
+
+def unbox(x):
+    """symbolic value of a NaN box, else None"""
+    import struct
+    bits = struct.unpack("<Q", struct.pack("<d", x))[0]
+    return _NANBOX.get((bits >> 29) & ((1 << 21) - 1))
+
+
 def _dg(x):
-    """finite-table values (kverif.gtab.G) take part in scalar arithmetic as case lists"""
+    """finite-table values (kverif.gtab.G) take part in scalar arithmetic as case lists; NaN boxes are opened"""
+    if type(x) is float:
+        if x != x:
+            v = unbox(x)
+            if v is not None:
+                return v
+        return x
     if type(x).__name__ == "G":
         return x.cases()
     return x
@@ -748,19 +781,66 @@ def div(a, b):
     if pb.is_const():
         return div(a, float(pb.const()))
     pa = topoly(a)
+    if ENV.inv_mode:
+        return _simp(pmul(pa, _inv(pb, b)))
     key = ("div", ENV.serial, frozenset(pa.t.items()), frozenset(pb.t.items()))
     if key in _PURE:
         return _PURE[key]
     q = fresh_real("div")
     pq = topoly(q)
     nz = zbool(ne(b, 0))
-    add_defined(nz)
+    if ENV.kink_margin:
+        add_defined(z3.Or(zbool(ge(b, ENV.kink_margin)), zbool(le(b, -ENV.kink_margin))))
+    else:
+        add_defined(nz)
     add_side(z3.Implies(nz, zbool(eq(pmul(pq, pb), pa))), defines=q)
     _PURE[key] = pq
     _DEFS[_single_atom(pq)] = ("div", pa, pb)
     if len(_PURE) > 20000:
         _PURE.clear()
     return pq
+
+
+_INVREG = {}
+
+
+def _monic(p):
+    lead = max(p.t)
+    c = p.t[lead]
+    return pscale(p, 1 / c), c
+
+
+def _inv(pb, b):
+    """reciprocal of a non-constant polynomial as a polynomial in reciprocal variables: one variable u per divisor
+    (divisors are made monic first; squares and pairwise products of divisors already met reuse their variables)"""
+    pn, c = _monic(pb)
+    if ENV.kink_margin:
+        add_defined(z3.Or(zbool(ge(b, ENV.kink_margin)), zbool(le(b, -ENV.kink_margin))))
+    else:
+        add_defined(zbool(ne(b, 0)))
+    key = ("inv", ENV.serial, frozenset(pn.t.items()))
+    u = _PURE.get(key)
+    if u is None:
+        reg = _INVREG.setdefault(ENV.serial, [])
+        if len(_INVREG) > 64:
+            for k in list(_INVREG)[:-8]:
+                del _INVREG[k]
+        for i, (q1, u1) in enumerate(reg):
+            for q2, u2 in reg[i:]:
+                pr = pmul(q1, q2)
+                if pr.t and _monic(pr)[0].t == pn.t:
+                    u = pscale(pmul(u1, u2), _monic(pr)[1])
+                    break
+            if u is not None:
+                break
+        if u is None:
+            v = fresh_real("inv")
+            u = topoly(v)
+            add_side(z3.Implies(zbool(ne(_simp(pn), 0)), zbool(eq(pmul(u, pn), 1))), defines=v)
+            _DEFS[_single_atom(u)] = ("inv", pn)
+            reg.append((pn, u))
+        _PURE[key] = u
+    return pscale(u, 1 / c)
 
 
 def reciprocal(a):
@@ -774,7 +854,7 @@ def sqrt(a):
     if isinstance(a, Cases):
         return a.map(sqrt)
     p = topoly(a)
-    add_defined(zbool(ge(a, 0)))
+    add_defined(zbool(ge(a, ENV.kink_margin)))
     return SqrtV(p)
 
 
@@ -969,7 +1049,12 @@ def sign(a):
         # torch.sgn of a complex number: z/|z|, and 0 at z == 0
         r = absv(a)
         z = eq(r, 0)
-        return Cx(where(z, 0.0, div(a.re, r)), where(z, 0.0, div(a.im, r)))
+        n0 = len(ENV.defined) if ENV.defined is not None else 0
+        out = Cx(where(z, 0.0, div(a.re, r)), where(z, 0.0, div(a.im, r)))
+        if ENV.defined is not None:      # the quotient is only evaluated where z is false
+            for i in range(n0, len(ENV.defined)):
+                ENV.defined[i] = z3.Or(zbool(z), ENV.defined[i])
+        return out
     if ENV.tiefree:
         add_side(zbool(ne(a, 0)))
         ENV.tie_assumptions += 1
@@ -1201,6 +1286,10 @@ def _datom(aid, xid, memo):
             r = 0.0
         else:
             r = div(sub(da, mul(q, db)), pb)
+    elif d[0] == "inv":
+        dp = deriv(d[1], xid, memo)
+        q = Poly({((aid, 2),): Fraction(-1)})
+        r = 0.0 if _is_zero(dp) else mul(_simp(q), dp)
     elif d[0] == "sqrt":
         dp = deriv(d[1], xid, memo)
         q = Poly({((aid, 1),): Fraction(1)})
